@@ -451,7 +451,7 @@ Theorem spending_exact : forall c n0 cs au a r ctx sgs i amt,
   let s := fst (run_log c (init n0) [] cs) in
   let g := snd (run_log c (init n0) [] cs) in
   kget (a, r) g = Some i -> transfer_amount ctx = Some amt ->
-  nonneg_log (gi_log i) = true -> 0 <= amt -> sgs <> [] ->
+  nonneg_log (stored i) = true -> 0 <= amt -> sgs <> [] ->
   let fits := (window_sum (now s) (gi_period i) (gi_log i) + amt <=? gi_limit i)
               && (len (newer (now s - gi_period i) (gi_log i)) <? max_history c) in
   is_ok (out_of (step c s (Enforce PL au a r [ctx] sgs))) = has_auth au a && fits /\
@@ -470,4 +470,76 @@ Proof.
     rewrite E. apply (l_can_exact c s a r ctx sgs i d amt Hmh Hn Hsg Hd Hrel Ha Hnn Hamt Hlim Hcc).
   - intros Hsum. unfold out_of, step. cbn [exec can_enforce].
     rewrite (l_can_value c s a r ctx sgs i d amt Hmh Hn Hsg Hd Hrel Ha Hnn Hamt Hlim Hcc Hsum). reflexivity.
+Qed.
+
+(* ================= batches beyond singletons ================= *)
+(* threshold policies: a batch succeeds iff it is empty or (authorised and the threshold is met) -
+   the contexts play no role *)
+Theorem batch_threshold : forall c n0 cs au a r ctxs sgs,
+  let s := run c (init n0) cs in
+  is_ok (out_of (step c s (Enforce PS au a r ctxs sgs))) =
+    is_nil ctxs || (has_auth au a && match kget (a, r) (st_simple s) with Some t => t <=? len sgs | None => false end) /\
+  is_ok (out_of (step c s (Enforce PW au a r ctxs sgs))) =
+    is_nil ctxs || (has_auth au a &&
+                    match kget (a, r) (st_weighted s) with
+                    | Some d => let w := wsum (wd_weights d) sgs in (w <=? MAXU32) && (wd_thr d <=? w)
+                    | None => false
+                    end).
+Proof.
+  intros c n0 cs au a r ctxs sgs s.
+  destruct (init_sw_inv n0) as [Hs0 Hw0]. destruct (run_sw_inv c cs _ Hs0 Hw0) as [_ Hw]. fold s in Hw.
+  split.
+  - unfold out_of, step. cbn [exec]. rewrite s_batch_spec. unfold s_can.
+    destruct (is_nil ctxs || _); reflexivity.
+  - unfold out_of, step. cbn [exec]. rewrite (w_batch_spec _ _ _ _ _ _ _ (winv_vals s a r Hw)). unfold w_can.
+    destruct (is_nil ctxs || _); reflexivity.
+Qed.
+
+(* spending: a successful batch kept every transfer, in order, within the window and the history
+   bound (whatever the signs); with non-negative amounts the batch succeeds exactly then *)
+Theorem batch_spending : forall c n0 cs au a r ctxs sgs i,
+  1 <= n0 -> 0 < max_history c -> ctxs <> [] ->
+  let s := fst (run_log c (init n0) [] cs) in
+  let g := snd (run_log c (init n0) [] cs) in
+  kget (a, r) g = Some i ->
+  let exact := l_batch_exact (max_history c) (now s) (gi_limit i) (gi_period i) ctxs (gi_log i) in
+  (is_ok (out_of (step c s (Enforce PL au a r ctxs sgs))) = true -> exact = true) /\
+  (nonneg_log (stored i) = true -> nonneg_ctxs ctxs = true ->
+   is_ok (out_of (step c s (Enforce PL au a r ctxs sgs))) =
+     has_auth au a && (match sgs with [] => false | _ => true end) && exact).
+Proof.
+  intros c n0 cs au a r ctxs sgs i Hn0 Hmh Hne s g Hi exact.
+  pose proof (run_log_inv c cs (init n0) [] (inv_init n0 Hn0)) as Hinv. fold s g in Hinv.
+  destruct Hinv as [Hn Hs Hw Hl].
+  assert (Hlin : linv s) by (unfold s; rewrite run_log_state; apply run_linv; apply init_linv).
+  destruct (grel_some _ _ _ _ Hl Hi) as (d & Hd & Hrel).
+  assert (E : is_ok (out_of (step c s (Enforce PL au a r ctxs sgs))) = is_ok (enforce_batch c PL s au a r sgs ctxs)).
+  { unfold out_of, step. cbn [exec]. destruct (enforce_batch c PL s au a r sgs ctxs) as [[s1 e1]|]; reflexivity. }
+  rewrite E. split.
+  - destruct (enforce_batch c PL s au a r sgs ctxs) as [[s1 e1]|] eqn:Eb; [|discriminate]. intros _.
+    apply (l_batch_fits c au a r sgs ctxs s d i s1 e1 Hn Hd Hrel Eb).
+  - intros Hnn Hcn. apply (l_batch_exact_ok c au a r sgs ctxs s d i Hn Hlin Hd Hrel Hnn Hcn Hne).
+Qed.
+
+(* installing over a live installation is refused by all three policies (for the spending policy a
+   re-install would silently restart the window) *)
+Theorem install_twice_refused : forall c s au a r,
+  (forall rs t, kget (a, r) (st_simple s) <> None -> out_of (step c s (SInstall au a r rs t)) = Fail) /\
+  (forall ws t, kget (a, r) (st_weighted s) <> None -> out_of (step c s (WInstall au a r ws t)) = Fail) /\
+  (forall l p, kget (a, r) (st_spend s) <> None -> out_of (step c s (LInstall au a r l p)) = Fail).
+Proof.
+  intros c s au a r. split; [|split].
+  - intros rs t H. unfold out_of, step. cbn [exec]. unfold s_install.
+    destruct (has_auth au a); cbn [guard bind unit_of]; [|reflexivity].
+    destruct (in_u32 t); cbn [guard bind unit_of]; [|reflexivity].
+    destruct (kget (a, r) (st_simple s)); [reflexivity|contradiction].
+  - intros ws t H. unfold out_of, step. cbn [exec]. unfold w_install.
+    destruct (has_auth au a); cbn [guard bind unit_of]; [|reflexivity].
+    match goal with |- context [guard ?b] => destruct b end; cbn [guard bind unit_of]; [|reflexivity].
+    destruct (kget (a, r) (st_weighted s)); [reflexivity|contradiction].
+  - intros l p H. unfold out_of, step. cbn [exec]. unfold l_install.
+    destruct (has_auth au a); cbn [guard bind unit_of]; [|reflexivity].
+    destruct (in_i128 l && in_u32 p); cbn [guard bind unit_of]; [|reflexivity].
+    destruct ((l <=? 0) || (p =? 0)); [reflexivity|].
+    destruct (kget (a, r) (st_spend s)); [reflexivity|contradiction].
 Qed.
